@@ -378,7 +378,9 @@ class Dependency(PackageSpecification):
                         f"Directory {name!r} is not installable. Not a Python project."
                     )
                 link = Link(path_to_url(p))
-            elif is_archive_file(p) and p.is_file():
+            elif is_archive_file(p) and os.path.isfile(p):  # noqa: PTH113
+                # os.path.isfile() answers False where Path.is_file() raises
+                # (e.g. ENAMETOOLONG for an over-long name)
                 link = Link(path_to_url(p))
 
         # it's a local file, dir, or url
